@@ -37,8 +37,6 @@ func ruleS1(c *Ctx) {
 		mode    byte
 	}
 	for _, w := range []want{
-		{"Adaptation", "requestPluginSync", true, 'W'},
-		{"Adaptation", "finishedPluginSync", false, 'W'},
 		{"Adaptation", "BlockPluginSync", true, 'R'},
 		{"PluginSyncBlock", "Unblock", false, 'R'},
 	} {
@@ -59,6 +57,26 @@ func ruleS1(c *Ctx) {
 			detail = fmt.Sprintf("found lock operations [%s]; want exactly one %s of Adaptation.syncLock in mode %c: registration no longer excludes (or is no longer excluded by) sync blocks", strings.Join(ds, ", "), map[bool]string{true: "acquisition", false: "release"}[w.acq], w.mode)
 		}
 		c.ok("S1", w.fn, f.Pos(), ok1, fmt.Sprintf("%s.%s is exactly the %s %s of Adaptation.syncLock", w.typ, w.fn, map[byte]string{'W': "exclusive", 'R': "shared"}[w.mode], map[bool]string{true: "acquisition", false: "release"}[w.acq]), detail)
+	}
+	// the registration path's side of the gate: its acquisitions and releases of the same lock are exclusive
+	{
+		reg := acceptLoop(m)
+		acq, rel, modes := syncGateOps(la, reg)
+		for _, x := range []struct {
+			key  string
+			ops  []ssa.Instruction
+			what string
+		}{{"requestPluginSync", acq, "acquisition"}, {"finishedPluginSync", rel, "release"}} {
+			okM := len(x.ops) > 0
+			detail := "the registration path (" + funcKey(reg) + ") has no " + x.what + " of Adaptation.syncLock: registration no longer excludes (or is no longer excluded by) sync blocks"
+			for _, o := range x.ops {
+				if modes[o] != 'W' {
+					okM = false
+					detail = fmt.Sprintf("the %s at %s is in mode %c; want exclusive: registration no longer excludes (or is no longer excluded by) sync blocks", x.what, c.pos(o.Pos()), modes[o])
+				}
+			}
+			c.ok("S1", x.key, reg.Pos(), okM, "the registration path's "+x.what+" of Adaptation.syncLock is exclusive", detail)
+		}
 	}
 	// Unblock: release guarded by b.r != nil, followed by b.r = nil
 	ub := m.method(pkgAdapt, "PluginSyncBlock", "Unblock")
@@ -116,17 +134,91 @@ func ruleS1(c *Ctx) {
 		"the release is not guarded by the block's reference or the reference is not cleared after releasing: a second Unblock releases a read lock it does not hold")
 }
 
-// acceptLoop returns the goroutine body of acceptPluginConnections.
+// acceptLoop returns the function that registers an accepted plugin: the one function of the adaptation
+// package, start-up aside, that calls the runtime's sync callback (today the goroutine body of
+// acceptPluginConnections; a helper called from it when the loop body is extracted).
 func acceptLoop(m *Module) *ssa.Function {
-	f := m.method(pkgAdapt, "Adaptation", "acceptPluginConnections")
+	sp := m.method(pkgAdapt, "Adaptation", "startPlugins")
+	var found []*ssa.Function
+	for _, f := range m.funcsInPkg(pkgAdapt) {
+		inStartup := false
+		for p := f; p != nil; p = p.Parent() {
+			if p == sp {
+				inStartup = true
+			}
+		}
+		if !inStartup && len(syncFnCalls(m, f)) > 0 {
+			found = append(found, f)
+		}
+	}
+	if len(found) != 1 {
+		panic(anchorErr{fmt.Sprintf("registration path not found: %d functions besides start-up call the sync callback", len(found))})
+	}
+	return found[0]
+}
+
+// acceptLoopFn returns the function that contains the Accept loop and, when the registration of an
+// accepted connection lives in a helper, the call of that helper in the loop (nil otherwise).
+func acceptLoopFn(m *Module) (*ssa.Function, ssa.CallInstruction) {
+	reg := acceptLoop(m)
+	hasAccept := func(f *ssa.Function) bool {
+		for _, ci := range calls(f) {
+			if ci.Common().IsInvoke() && ci.Common().Method.Name() == "Accept" {
+				return true
+			}
+		}
+		return false
+	}
+	if hasAccept(reg) {
+		return reg, nil
+	}
+	for _, cs := range m.callersOf(reg) {
+		if hasAccept(cs.Caller) {
+			return cs.Caller, cs.Instr
+		}
+	}
+	panic(anchorErr{"the Accept loop of the external-plugin listener was not found"})
+}
+
+// syncGateOps: the instructions of f that acquire / release Adaptation.syncLock, directly or through
+// a callee whose net effect is that operation.
+func syncGateOps(la *lockAnalysis, f *ssa.Function) (acq, rel []ssa.Instruction, modes map[ssa.Instruction]byte) {
+	modes = map[ssa.Instruction]byte{}
 	for _, ci := range calls(f) {
-		if g, ok := ci.(*ssa.Go); ok {
-			if fn := closureFn(g.Call.Value); fn != nil {
-				return fn
+		if _, isDefer := ci.(*ssa.Defer); isDefer {
+			continue
+		}
+		if op := la.lockOpOf(ci.Common()); op != nil {
+			if op.ID.Name == "Adaptation.syncLock" {
+				modes[ci] = op.ID.Mode
+				if op.Acquire {
+					acq = append(acq, ci)
+				} else {
+					rel = append(rel, ci)
+				}
+			}
+			continue
+		}
+		g := la.m.callee(ci.Common())
+		if g == nil || !la.scope[g] {
+			continue
+		}
+		if eff := la.summarise(g); eff != nil {
+			for id := range eff.acquires {
+				if id.Name == "Adaptation.syncLock" {
+					acq = append(acq, ci)
+					modes[ci] = id.Mode
+				}
+			}
+			for id := range eff.releases {
+				if id.Name == "Adaptation.syncLock" {
+					rel = append(rel, ci)
+					modes[ci] = id.Mode
+				}
 			}
 		}
 	}
-	panic(anchorErr{"goroutine of acceptPluginConnections not found"})
+	return
 }
 
 // syncFnCalls: calls through the Adaptation.syncFn field in f.
@@ -151,19 +243,13 @@ func ruleS2S3(c *Ctx) {
 	c.rule("S3", "activation: the append of the new plugin to the active list is control-dependent on the sync callback having returned nil, is made under the adaptation lock and is followed by sortPlugins before that lock is released", 1)
 	la := adaptationLocks(c)
 	f := acceptLoop(m)
-	req := m.method(pkgAdapt, "Adaptation", "requestPluginSync")
-	fin := m.method(pkgAdapt, "Adaptation", "finishedPluginSync")
-	acq := m.callsTo(f, req)
-	rel := m.callsTo(f, fin)
+	acq, rel, _ := syncGateOps(la, f)
 	if len(acq) != 1 {
-		c.violate("S2", "acquire", f.Pos(), "the accept loop requests plugin sync exactly once per plugin", fmt.Sprintf("%d calls of requestPluginSync", len(acq)))
+		c.violate("S2", "acquire", f.Pos(), "the accept loop requests plugin sync exactly once per plugin", fmt.Sprintf("%d acquisitions of Adaptation.syncLock in %s", len(acq), funcKey(f)))
 		return
 	}
 	a := acq[0]
-	var relI []ssa.Instruction
-	for _, r := range rel {
-		relI = append(relI, r)
-	}
+	relI := rel
 	// sync callback under the lock, with the plugin's synchronize
 	sfs := syncFnCalls(m, f)
 	if len(sfs) != 1 {
